@@ -54,6 +54,7 @@ class Run:
         self.stale = [0] * self.n             # line steps of a thread since shared state last changed / it finished an op
         self.appended = {}                    # ground truth: payloads appended to each hub queue, in order
         self.chans = [None] * self.n
+        self.cb_events = []
         self.bsocks = [[] for _ in cfg]
         self.line_sched = []                  # the line-level schedule actually executed
         self.failed_acq = [False] * self.n
@@ -69,7 +70,7 @@ class Run:
         def me():
             return getattr(run.tls, "tid", -1)
 
-        MUT = ("_add", "_del", "_discard", "_set", "_pop", "q_app", "q_pop", "q_insert", "call_")
+        MUT = ("_add", "_del", "_discard", "_set", "_pop", "q_app", "q_pop", "q_insert", "q_clear", "q_del", "call_")
 
         def rec(label, arg=None, pre=True):
             if run.aborting:          # unwinding of blocked threads at the end of a run is not part of the execution
@@ -122,6 +123,14 @@ class Run:
             def insert(s, *a):
                 rec("q_insert", s.key)
                 return list.insert(s, *a)
+
+            def clear(s):
+                rec("q_clear", s.key)
+                return list.clear(s)
+
+            def __delitem__(s, i):
+                rec("q_del", s.key)
+                return list.__delitem__(s, i)
 
             def __getitem__(s, i):
                 rec("q_getitem", s.key)
@@ -242,6 +251,7 @@ class Run:
 
             def recv_callback(s, msg):
                 rec("call_recv", s._tid)
+                run.cb_events.append((len(run.log) - 1, s._tid, msg))     # when the callback observed the message
                 run.storage[s._tid].append(msg)
 
             def conn_lost_callback(s):
@@ -306,6 +316,9 @@ class Run:
             return ["msg", s.recv(block=False)]
         if op[0] == "disconnect":
             self.hub.disconnect(s)
+            return "ok"
+        if op[0] == "setcb":            # the use_callbacks setter on an existing socket
+            s.use_callbacks = bool(op[1])
             return "ok"
         raise ValueError(op)
 
